@@ -13,6 +13,9 @@ use serde::{Deserialize, Serialize};
 pub struct CliCase {
     pub ws: WsCase,
     pub opts: PushOpts,
+    /// number of patches recorded as applied before the invocation (tree = model state after them)
+    #[serde(default)]
+    pub prior: usize,
 }
 
 pub fn label_ws(ws: &WsCase, cx: &mut CaseCtx) {
@@ -65,8 +68,22 @@ pub fn check_c05_like(case: &CliCase, cx: &mut CaseCtx, check_rejects_content: b
     cx.label_if(case.opts.threads > 1, "threads>1");
     cx.label(&format!("backup-{}", if case.opts.backup.is_empty() { "default" } else { &case.opts.backup }));
     let root = cx.env.fresh_dir("ws-");
-    ws.spec.materialise(&root);
-    let obs = push(cx, &root, &case.opts, &Default::default());
+    let first = case.prior.min(ws.applicable());
+    let mut spec = ws.spec.clone();
+    if first > 0 {
+        cx.label("prior-applied-state");
+        spec.tree = ws.states[first].clone();
+        spec.applied = Some(crate::bytes::B(ws.names()[..first].iter().map(|n| format!("{}\n", n)).collect::<String>().into_bytes()));
+    }
+    spec.materialise(&root);
+    let mut opts = case.opts.clone();
+    if let Goal::Name(n) = &opts.goal {
+        if ws.names().iter().position(|x| x == n).map_or(true, |i| i < first) {
+            opts.goal = Goal::All;
+        }
+    }
+    let case_opts = &opts;
+    let obs = push(cx, &root, case_opts, &Default::default());
     ws::rm_rf(&root);
     if obs.out.exit == Exit::Timeout {
         return Verdict::Inconclusive("watchdog".into());
@@ -74,7 +91,7 @@ pub fn check_c05_like(case: &CliCase, cx: &mut CaseCtx, check_rejects_content: b
     if let Some(c) = crash_or_timeout(&obs.out.exit) {
         return Verdict::Fail(format!("push crashed: {}; stderr: {}", c, ws::lossy(&obs.out.stderr)));
     }
-    let exp = expectation(ws, &case.opts, 0);
+    let exp = expectation(ws, case_opts, first);
     let names = ws.names();
     // non-trivial rule
     if let Some(j) = ws.fail_at {
@@ -105,7 +122,7 @@ pub fn check_c05_like(case: &CliCase, cx: &mut CaseCtx, check_rejects_content: b
         ));
     }
     let (rejects, files) = split_rejects(ws::user_files(&obs.snap));
-    let want_tree = ws::tree_as_map(&ws.states[exp.applied]);
+    let want_tree = ws::tree_as_map(&ws.states[first + exp.applied]);
     if !check_rejects_content {
         if let Some(d) = ws::diff_maps(&want_tree, &files, true) {
             return Verdict::Fail(format!("tree is not the start tree with the first {} patches applied: {}", exp.applied, d));
@@ -113,14 +130,14 @@ pub fn check_c05_like(case: &CliCase, cx: &mut CaseCtx, check_rejects_content: b
     }
     // applied-patches
     let got_applied: Vec<String> = obs.snap.get(&b".pc/applied-patches".to_vec()).map(|e| String::from_utf8_lossy(&e.bytes).lines().map(|s| s.to_string()).collect()).unwrap_or_default();
-    if !check_rejects_content && got_applied != names[..exp.applied].to_vec() {
-        return Verdict::Fail(format!(".pc/applied-patches lists {:?}, expected the first {} names {:?}", got_applied, exp.applied, &names[..exp.applied]));
+    if !check_rejects_content && got_applied != names[..first + exp.applied].to_vec() {
+        return Verdict::Fail(format!(".pc/applied-patches lists {:?}, expected the first {} names {:?}", got_applied, first + exp.applied, &names[..first + exp.applied]));
     }
     // reject set
     let mut expected_rej: Vec<(String, &FileOp, bool)> = Vec::new();
     if exp.stops_on_failure {
         let j = ws.fail_at.unwrap();
-        let start = &ws.states[0];
+        let start = &ws.states[first];
         for op in &ws.metas[j].ops {
             if !op.failing_hunks.is_empty() {
                 let d = match op.target.rfind('/') {
@@ -193,7 +210,8 @@ pub fn build_cli_case(ch: &mut Chooser, cx: &mut CaseCtx, fail_chance: u32, with
     if with_goal {
         opts.goal = gen_goal(ch, &ws);
     }
-    CliCase { ws, opts }
+    let prior = if ch.chance(1, 4) { ch.below(ws.applicable() + 1) } else { 0 };
+    CliCase { ws, opts, prior }
 }
 
 impl Prop for C05 {
@@ -240,7 +258,8 @@ impl Prop for C13 {
     }
     fn build(&self, ch: &mut Chooser, cx: &mut CaseCtx) -> CliCase {
         let mut c = build_cli_case(ch, cx, 7, false);
-        if ch.chance(1, 6) {
+        let misordered = c.ws.fail_at.map_or(false, |j| c.ws.metas[j].ops.iter().any(|o| o.fail_reason.as_deref() == Some("misordered")));
+        if ch.chance(1, 6) && !misordered {
             c.opts.fuzz = Some(ch.range(1, 2));
         }
         c
